@@ -98,6 +98,7 @@ inductive Ev where
   -- scheduler: the event loop runs a pending done-callback (any order is allowed by the model)
   | cbRRReq (oid : Nat)                       -- `RequestResponseRequester._on_future_complete`
   | cbRRResp (oid : Nat)                      -- `RequestResponseResponder.future_done`
+  | fnfSent (sid : Nat)                       -- done-callback of a fire-and-forget's `sent_future`: `finish_stream(sid)`
 deriving Repr, DecidableEq
 
 inductive Out where
